@@ -321,4 +321,48 @@ theorem consistent_along (cfg : Cfg) (hR : 4 ≤ cfg.numRows) (hC : 4 ≤ cfg.nu
       · exact hc'
       · exact ih _ hc' (fun b hb => hin b (by simp [hb])) s' h
 
+/-! ### audit r5 #4: LAST at the level of the rules (no cached L1 field in the statement) -/
+
+/-- after a LEGAL drop (LAST or not) the cached mask of the successor is its legality table -/
+theorem step_mask_legalMask (cfg : Cfg) (s : State) (hc : Consistent cfg s) (hR : 4 ≤ cfg.numRows)
+    (hC : 4 ≤ cfg.numCols) (rot x d : Nat) (hr : rot < 4) (hx : x < cfg.numCols) (hd : validDraw d)
+    (hl : legal cfg s rot x) :
+    (step cfg s (rot : Int) (x : Int) d).1.actionMask = legalMask cfg (step cfg s (rot : Int) (x : Int) d).1 := by
+  obtain ⟨hs, hp, _, hi, _, hm, _⟩ := hc
+  obtain ⟨hg, _⟩ := step_grid_placed cfg s hi rot x d hr
+  obtain ⟨hs1, hp1⟩ := place_padding cfg s.gridPadded s.tetrominoIndex rot x hs hp hR hC hi hr hx hl
+  obtain ⟨hs2, hp2⟩ := cleanLines_shaped_padding cfg _ hs1 hp1 (by omega)
+  have hidx := step_index cfg s (rot : Int) (x : Int) d
+  have hd' : d < 7 := hd
+  apply mask_of_grid cfg _ _ _ hR hC
+  · rw [hidx]; exact hd'
+  · exact cached_mask cfg s (rot : Int) (x : Int) d
+  · rw [hg]; exact hs2
+  · rw [hg]; exact hp2
+
+theorem legalMask_any_false_iff (cfg : Cfg) (s : State) :
+    (legalMask cfg s).any (fun r => r.any id) = false ↔
+      ∀ rot' x', rot' < 4 → x' < cfg.numCols → ¬ legal cfg s rot' x' := by
+  unfold legalMask legal
+  simp only [List.any_eq_false, List.mem_map, List.mem_range, forall_exists_index, and_imp, forall_apply_eq_imp_iff₂,
+    id, Bool.not_eq_true]
+  constructor
+  · intro h rot' x' hr hx
+    have := h rot' hr
+    simpa using this x' hx
+  · intro h rot' hr
+    intro x' hx
+    simpa using h rot' x' hr hx
+
+theorem step_last_iff_rules' (cfg : Cfg) (s : State) (hc : Consistent cfg s) (hR : 4 ≤ cfg.numRows)
+    (hC : 4 ≤ cfg.numCols) {rot x : Nat} (hr : rot < 4) (hx : x < cfg.numCols) (d : Nat) (hd : validDraw d) :
+    (step cfg s (rot : Int) (x : Int) d).2.stepType = .last ↔
+      (¬ legal cfg s rot x ∨
+       (∀ rot' x', rot' < 4 → x' < cfg.numCols → ¬ legal cfg (step cfg s (rot : Int) (x : Int) d).1 rot' x') ∨
+        cfg.timeLimit ≤ s.stepCount + 1) := by
+  rw [step_last_iff_rules cfg s hc hr hx d]
+  by_cases hl : legal cfg s rot x
+  · rw [step_mask_legalMask cfg s hc hR hC rot x d hr hx hd hl, legalMask_any_false_iff]
+  · simp [hl]
+
 end Tetris
